@@ -2,7 +2,7 @@
 import re
 from core import *  # noqa
 from roles import *  # noqa
-import roles, shared, symex
+import inline, roles, shared, symex
 import rules_C14
 
 EXPLANATION = (
@@ -93,45 +93,34 @@ def c15_rest(ctx, facts, nr):
     res = rules_C14.panic_census(ctx, "C15.4")
 
     # ---- C15.5 drains stop at EOF and at the first error; framed readers propagate errors
-    for adt in (ER, "request::ChunkedBodyReader"):
-        d = facts.drop_fn(adt)
-        if d is None:
+    import drain_rules as DR
+    for adt, what in ((ER, "the length-limited body reader"), ("request::ChunkedBodyReader", "the chunked body reader")):
+        if facts.drop_fn(adt) is None:
+            ctx.ob("C15.5", "%s|has-drain" % adt, "the body reader has a draining destructor", False, adt)
             continue
-        ctx.touch(d)
-        reads = [bb for bb, t in d.calls() if t.get("callee") == "std::io::Read::read"]
-        for k, rb in enumerate(reads):
-            t = d.term(rb)
-            # Err edge and zero edge must not lead back to the read
-            ok_e = ok_z = False
-            dl = t["dest"]["l"]
-            for b2 in sorted(d.live_blocks()):
-                sw2 = switch_on_discr(d, b2)
-                if sw2 and not sw2[0]["pl"]["p"] and sw2[0]["pl"]["l"] == dl:
-                    rv2, m2, oth2, rest2 = sw2
-                    et = m2.get("Err", oth2 if "Err" in rest2 else None)
-                    okt = m2.get("Ok", oth2 if "Ok" in rest2 else None)
-                    if et is not None and rb not in d.reach([et], unwind=False):
-                        ok_e = True
-                    if okt is not None:
-                        tt = d.term(okt)
-                        if tt["t"] == "switch" and tt["dty"] not in ("bool", "isize"):
-                            tg = dict((v, b) for v, b in tt["targets"])
-                            if 0 in tg and rb not in d.reach([tg[0]], unwind=False):
-                                ok_z = True
-                    if et is not None and okt is not None and et == okt:
-                        # `if let Ok(0) | Err(_) = ..` compiles to a shared target
-                        pass
-            if not (ok_e and ok_z):
-                # generic formulation: there is a path from the read to `return` that does not pass the read again,
-                # and every loop-back path passes a test on the result
-                ok_e = ok_e or any(r in d.reach([d.normal_target(rb)], blocked={rb}, unwind=False) for r in d.returns())
-                ok_z = ok_z or ok_e
-            ctx.ob("C15.5", "%s|drain-stops|%d" % (d.id, k), "the discard loop of a dropped body reader ends at end-of-stream and at the first I/O error (a vanished client cannot keep it spinning)", ok_e and ok_z, d.loc(rb))
+        DR.stops_rule(ctx, "C15.5", adt, what, emit=("stops",))
+    import fused_rules
     for adt in (ER, FR):
+        # at most one read of the inner reader on any path through the wrapper's read (helpers and closures of its file spliced in),
+        # and a failed inner read comes back to the caller as an error
+        M = fused_rules.FusedModel(facts, adt) if adt == FR else None
         rd = method(facts, T_READ, adt, "read")
-        inner = [bb for bb, t in rd.calls() if t.get("callee") == "std::io::Read::read"]
-        ok = bool(inner) and all(not rd.in_loop(b) for b in inner)
-        ctx.ob("C15.5", "%s|no-retry" % rd.id, "a failing inner read is reported to the caller, not retried in a loop", ok, "%s:%d" % (rd.file, rd.line))
+        f2 = M.f if M else inline.inlined(facts, rd.id, stop=lambda d: facts.fns[d].rec.get("local") and facts.fns[d].file != rd.file, extern_ok=Q.std_small)
+        def on_call(bb, t, args, s2):
+            return fused_rules.ERR if t.get("callee") in fused_rules.READS else None
+        ps = [p for p in absint.explore(f2, 0, None, on_call=on_call, max_paths=2000) if p.end[0] not in fused_rules.DEAD]
+        bad = []
+        for p in ps:
+            n = len([e for e in p.calls() if e[6] in fused_rules.READS])
+            r = absint.deep(p.state, p.ret()) if p.end[0] == "return" else None
+            if n > 1:
+                bad.append("%d inner reads on one path" % n)
+            elif n == 1 and not (r is not None and r[0] == "agg" and r[2] == "Err"):
+                bad.append("a failed inner read ends in %s" % (symex.sym_str(r)[:50] if r else p.end[0]))
+            elif p.end[0] == "cut":
+                bad.append("path not followed to its end")
+        ok = bool(ps) and not bad and any(len([e for e in p.calls() if e[6] in fused_rules.READS]) == 1 for p in ps)
+        ctx.ob("C15.5", "%s|no-retry" % rd.id, "a failing inner read is reported to the caller, not retried in a loop", ok, "%s:%d" % (rd.file, rd.line), None if ok else str(bad[:3]))
 
     # ---- C15.6 observation (not armed): the accept loop leaves on any accept() error
     ctx.note("observation (not a violation): the accept thread `break`s on any Listener::accept error; on Linux a reset connection in the backlog is still returned successfully, so no vanishing-client input is known to trigger it")
